@@ -44,13 +44,20 @@ func (m *Mutex) Unlock() {
 	m.locked = false
 }
 
+// As documented for sync.RWMutex, a Lock call that waits keeps new readers out ("if any goroutine
+// calls Lock while the lock is already held by one or more readers, concurrent calls to RLock will
+// block until the writer has acquired (and released) the lock"): recursive read locking deadlocks
+// here as it does in the runtime.
 type RWMutex struct {
-	w bool
-	r int
+	w     bool
+	r     int
+	wwait int // Lock calls waiting
 }
 
 func (m *RWMutex) Lock() {
+	m.wwait++
 	simhook.YieldUntil("sync.RWMutex.Lock", func() bool { return !m.w && m.r == 0 })
+	m.wwait--
 	m.w = true
 }
 
@@ -65,7 +72,7 @@ func (m *RWMutex) TryLock() bool {
 
 func (m *RWMutex) TryRLock() bool {
 	simhook.Yield("sync.RWMutex.TryRLock")
-	if m.w {
+	if m.w || m.wwait > 0 {
 		return false
 	}
 	m.r++
@@ -80,7 +87,7 @@ func (m *RWMutex) Unlock() {
 }
 
 func (m *RWMutex) RLock() {
-	simhook.YieldUntil("sync.RWMutex.RLock", func() bool { return !m.w })
+	simhook.YieldUntil("sync.RWMutex.RLock", func() bool { return !m.w && m.wwait == 0 })
 	m.r++
 }
 
